@@ -680,10 +680,15 @@ func (h *httpServerHandler) handleGet(ctx context.Context, w http.ResponseWriter
 	}
 	h.getSSEConnectionsLock.Unlock()
 	// Wait for a writer that is inside a write and keep later ones away: the response writer
-	// must not be touched once this handler has returned. That writer may be stuck (the peer
-	// stopped reading this stream): expire its write, so that the wait does not depend on the peer.
-	_ = http.NewResponseController(w).SetWriteDeadline(time.Now())
-	conn.writeLock.Lock()
+	// must not be touched once this handler has returned. A writer that is in the way may be
+	// stuck (the peer stopped reading this stream): expire its write, so that the wait does not
+	// depend on the peer, and lift the deadline again so that the response can end in order.
+	if !conn.writeLock.TryLock() {
+		rc := http.NewResponseController(w)
+		_ = rc.SetWriteDeadline(time.Now())
+		conn.writeLock.Lock()
+		_ = rc.SetWriteDeadline(time.Time{})
+	}
 	conn.closed = true
 	conn.writeLock.Unlock()
 	h.logger.Infof("GET SSE connection closed, session ID: %s", session.GetID())
